@@ -22,6 +22,7 @@ import multiprocessing
 import os
 import random
 import shutil
+from concurrent.futures import ThreadPoolExecutor
 
 from ..common import Check, MachineryError, SPEC
 from .. import tlc
@@ -50,11 +51,12 @@ def _b(x):
 
 
 def constants(intervals=(7,), retries=(0, 1), die=(0,), modes=("repeatingProducer",), durations=(2, 6), outcomes=("ok", "fail"),
-              notify_by=7, max_outputs=1, extkill=False, prenotify=True, window=True, prerun=False, deviations=(), record=False):
+              notify_by=7, max_outputs=1, extkill=False, prenotify=True, window=True, prerun=False, deviations=(), record=False,
+              max_faults=0):
     return ("CONSTANTS\n  Intervals = %s\n  RetrySet = %s\n  DieAfterSet = %s\n  Modes = %s\n  Durations = %s\n  Outcomes = %s\n"
-            "  NotifyBy = %d\n  MaxOutputs = %d\n  AllowExternalKill = %s\n  AllowPreNotify = %s\n  AllowWindow = %s\n"
+            "  NotifyBy = %d\n  MaxOutputs = %d\n  MaxFaults = %d\n  AllowExternalKill = %s\n  AllowPreNotify = %s\n  AllowWindow = %s\n"
             "  PreRunOutput = %s\n  Deviations = %s\n  Record = %s\n" % (
-                _set(intervals), _set(retries), _set(die), _set(modes), _set(durations), _set(outcomes), notify_by, max_outputs,
+                _set(intervals), _set(retries), _set(die), _set(modes), _set(durations), _set(outcomes), notify_by, max_outputs, max_faults,
                 _b(extkill), _b(prenotify), _b(window), _b(prerun), _set(deviations), _b(record)))
 
 
@@ -81,10 +83,10 @@ def design_checks(chk, tier):
     inv = "".join("INVARIANT %s\n" % i for i in INVARIANTS)
     if thorough:
         c = constants(intervals=(3, 7, 12), retries=(0, 1, 2), die=(0, 4), modes=ALL_MODES, durations=(2, 6), notify_by=14, max_outputs=2,
-                      extkill=True)
+                      extkill=True, max_faults=1)
     else:
         c = constants(intervals=(3, 12), retries=(0, 2), die=(0, 4), modes=ALL_MODES, durations=(2, 6), notify_by=8, max_outputs=1,
-                      extkill=True)
+                      extkill=True, max_faults=1)
     r = tlc.run_tlc("Repeating", _cfg("Repeating_design_%s.cfg" % tier, c + "SPECIFICATION Spec\n" + inv), coverage=True, deadlock=False,
                     timeout=1500)
     if not r["ok"]:
@@ -102,23 +104,23 @@ def design_checks(chk, tier):
     if not r["ok"]:
         raise MachineryError("Repeating.tla (liveness run): %s fails on the model:\n%s" % (r["violated"], r["out"][-2500:]))
     chk.add_tlc(r)
-    # sensitivity: with the code's deviation enabled the invariants must break
+    # sensitivity: with the code's deviation enabled the invariants must break;
+    # vacuity: the antecedents / interesting corners are reachable.  (Independent TLC processes, run side by side.)
+    jobs = []
     for dev, want, kw in (("stale-suicide", "StopsInTime", dict(intervals=(7,), retries=(1,), die=(4,), modes=("earlierStage",))),
                           ("stale-check", "FinalOutputObserved", dict(intervals=(7,), retries=(0,), die=(0,), modes=("repeatingProducer",)))):
         c = constants(durations=(2, 6), notify_by=12, deviations=(dev,), **kw)
-        r = tlc.run_tlc("Repeating", _cfg("Repeating_dev_%s.cfg" % dev, c + "SPECIFICATION Spec\n" + inv), deadlock=False,
-                        timeout=600, expect_violation=True)
-        if r["violated"] != want:
-            raise MachineryError("deviation %s: expected TLC to violate %s, got %s" % (dev, want, r["violated"]))
-        # (search stops at the counterexample: state counts vary with worker timing, keep them out of the totals)
-        chk.cov.setdefault("sensitivity", []).append({"deviation": dev, "violates": want})
-    # vacuity: the antecedents / interesting corners are reachable
+        jobs.append(("deviation " + dev, want, _cfg("Repeating_dev_%s.cfg" % dev, c + "SPECIFICATION Spec\n" + inv)))
     for wname in (WITNESSES if thorough else WITNESSES[:3]):
         c = constants(intervals=(7, 30), retries=(0, 1, 3), die=(0, 4), modes=("repeatingProducer", "earlierStage"), durations=(2, 6), notify_by=12)
-        r = tlc.run_tlc("Repeating", _cfg("Repeating_wit.cfg", c + "SPECIFICATION Spec\nINVARIANT %s\n" % wname), deadlock=False,
-                        timeout=600, expect_violation=True, workers=4)
-        if r["violated"] != wname:
-            raise MachineryError("witness %s is not reachable in the model (vacuous invariant)" % wname)
+        jobs.append(("witness " + wname, wname, _cfg("Repeating_wit_%s.cfg" % wname, c + "SPECIFICATION Spec\nINVARIANT %s\n" % wname)))
+    with ThreadPoolExecutor(max_workers=4) as ex:
+        res = list(ex.map(lambda j: tlc.run_tlc("Repeating", j[2], deadlock=False, timeout=600, expect_violation=True, workers=2), jobs))
+    for (what, want, _), r in zip(jobs, res):
+        if r["violated"] != want:
+            raise MachineryError("%s: expected TLC to violate %s, got %s (insensitive / vacuous invariant)" % (what, want, r["violated"]))
+        # (search stops at the counterexample: state counts vary with worker timing, keep them out of the totals)
+        chk.cov.setdefault("sensitivity", []).append({"run": what, "violates": want})
 
 
 # ---------------------------------------------------------------------------------------------------------------
@@ -134,6 +136,8 @@ def families(tier):
             ("modes", dict(intervals=(12, 3), retries=(2,), die=(0,), modes=("noCheck", "plainProducer", "earlierStage"), durations=(3,),
                            outcomes=("ok", "fail", "rexh"), notify_by=8)),
             ("forced", dict(intervals=(30,), retries=(3, 5), die=(0,), modes=("repeatingProducer",), durations=(3, 22), notify_by=6, window=False)),
+            ("fsfault", dict(intervals=(3, 7), retries=(0, 1, 2), die=(0, 9), modes=("plainProducer", "noCheck"), durations=(2,), notify_by=12,
+                             max_outputs=1, max_faults=3, window=False)),
         ]
     return [
         ("timeline", dict(intervals=(7,), retries=(0, 1), die=(0,), modes=("repeatingProducer",), durations=(2, 6), notify_by=7, max_outputs=1)),
@@ -144,15 +148,20 @@ def families(tier):
                        outcomes=("ok", "rexh"), notify_by=5, window=False)),
         ("forced", dict(intervals=(30,), retries=(3,), die=(0,), modes=("repeatingProducer",), durations=(3,), notify_by=3, window=False,
                         prenotify=False)),
+        ("fsfault", dict(intervals=(3,), retries=(0, 1), die=(0,), modes=("plainProducer", "noCheck"), durations=(2,), outcomes=("ok",), notify_by=6,
+                         max_outputs=1, max_faults=2, window=False)),
     ]
 
 
 def emit_behaviours(chk, tier):
+    fams = families(tier)
+    cfgs = [_cfg("Repeating_emit_%s_%s.cfg" % (name, tier), constants(record=True, **kw) + "INIT Init\nNEXT Next\nINVARIANT EmitBehaviour\n")
+            for name, kw in fams]
+    # one single-worker TLC process per family (emission order inside a family is deterministic), side by side
+    with ThreadPoolExecutor(max_workers=4) as ex:
+        res = list(ex.map(lambda c: tlc.run_tlc("Repeating", c, workers=1, deadlock=False, timeout=1500, jvm=["-Xss16m"]), cfgs))
     cases = []
-    for name, kw in families(tier):
-        c = constants(record=True, **kw)
-        r = tlc.run_tlc("Repeating", _cfg("Repeating_emit_%s_%s.cfg" % (name, tier), c + "INIT Init\nNEXT Next\nINVARIANT EmitBehaviour\n"),
-                        workers=1, deadlock=False, timeout=1500, jvm=["-Xss16m"])
+    for (name, kw), r in zip(fams, res):
         if not r["ok"]:
             raise MachineryError("emission run %s failed:\n%s" % (name, r["out"][-2000:]))
         if len(r["cases"]) < 20:
@@ -160,7 +169,7 @@ def emit_behaviours(chk, tier):
         chk.add_tlc(r)
         for b in r["cases"]:
             b["family"] = name
-        cases += r["cases"]
+        cases += sorted(r["cases"], key=lambda b: json.dumps(b, sort_keys=True))
     return cases
 
 
@@ -192,6 +201,10 @@ def random_cases(n, seed):
         if rnd.random() < 0.15:
             sched.append({"a": "extkill", "s": rnd.randrange(-1, 160, 2)})
         sched.sort(key=lambda e: (e["s"], {"output": 0, "notify": 1, "extkill": 2}[e["a"]]))
+        if cfg["mode"] in ("plainProducer", "noCheck") and rnd.random() < 0.5:
+            # transient filesystem faults: the k-th canConsume() listing of the (still empty) producer directory raises OSError
+            for _ in range(rnd.randint(1, 5)):
+                sched.append({"a": "check", "s": rnd.choice([1, 1, 0])})
         for _ in range(40):
             sched.append({"a": "task", "s": rnd.randint(1, maxd)})
             sched.append({"a": "rc", "s": rnd.choice([0, 0, 1, 1, 2])})
@@ -284,7 +297,7 @@ def emission_diffs(res):
 def trace_constants(tf, verbose=False):
     return (constants(intervals=(5,), retries=(0,), die=(0,), modes=("earlierStage",), durations=tuple(range(1, 41)),
                       outcomes=("ok", "fail", "rexh"), notify_by=1000000, max_outputs=1000, extkill=True, prenotify=True, window=True,
-                      prerun=True, deviations=("stale-suicide", "stale-check")) +
+                      prerun=True, deviations=("stale-suicide", "stale-check"), max_faults=1000) +
             "  Verbose = %s\n  TraceFile = \"%s\"\nINIT TInit\nNEXT TNext\nINVARIANT Report\nCHECK_DEADLOCK FALSE\n" % (_b(verbose), tf))
 
 
@@ -330,6 +343,9 @@ def validate_traces(chk, runs, tag):
 
 def describe(item, res):
     env = [e for e in item["sched"] if e["a"] in ("notify", "output", "extkill")]
+    flt = [e["s"] for e in item["sched"] if e["a"] == "check"]
+    if any(flt):
+        env = env + [{"a": "listing-faults", "s": flt}]
     return "cfg %s env %s -> launches %s, final alive=%s reason=%s retries=%s t=%s" % (
         {k: item["cfg"][k] for k in ("R", "retries0", "die", "mode")}, [(e["a"], e["s"]) for e in env],
         [(l["t"], l["saw"]) for l in res["launches"]], res["final"]["alive"], res["final"]["reason"], res["final"]["retries"], res["final"]["now"])
@@ -430,7 +446,7 @@ def _run(chk, tier):
     chk.assumptions += [
         "task durations are whole seconds >= 1, a killed task dies within the second; environment events fall strictly between the monitor's instants or into the output-check window",
         "producer output that exists before run() (mtime <= the primed lastLaunched) is outside the claim (constant PreRunOutput = FALSE)",
-        "the task generator never raises; FilesystemInconsistencyError paths, the optimizer and restart() (lastExecution) are not modelled",
+        "the task generator never raises; the optimizer and restart() (lastExecution) are not modelled; filesystem faults are modelled for canConsume()'s listing of an output-less producer directory (non-repeating producer / check-producer-output=false) only, not for producersHaveOutputSinceDate",
         "stopping because the configured kill delay expired counts as a permitted stop for clause 2",
         "bounded termination is checked as StopBound = 2*(maxd + (retries0+2)*(poll-rounded interval + maxd) + interval), or kill delay + 2 s",
     ]
